@@ -1221,13 +1221,14 @@ package connect
 //@     assigns elems(anys)
 
 //@ func grpcStatusFromError(err) (res, e)
-//@   tags C02
+//@   tags C02, C07, C05
 //@   requires err != nil
 //@   nosafety truncation
 //@   assigns nothing
 //@   ensures e == nil ==> res != nil && fresh(res)
-//@   ensures e == nil && coded(err) && codeOf(err) <= 2147483647 ==> res.Code == codeOf(err) && res.Message == errMessage(asErr(err))   // label: status-carries-code-and-message
-//@   ensures e == nil && !coded(err) ==> res.Code == 2 && res.Message == errText(err)                     // label: plain-error-is-unknown-with-its-text
+//@   ensures e == nil && coded(err) && codeOf(err) <= 2147483647 ==> res.Code == codeOf(err) && (validUTF8(errMessage(asErr(err))) ==> res.Message == errMessage(asErr(err)))   // label: status-carries-code-and-message
+//@   ensures e == nil && !coded(err) ==> res.Code == 2 && (validUTF8(errText(err)) ==> res.Message == errText(err))                     // label: plain-error-is-unknown-with-its-text
+//@   ensures e == nil ==> validUTF8(res.Message)   // label: the-message-on-the-wire-is-valid-utf-8-whatever-the-error-text-quotes   // tags: C07, C05
 //@   ensures e == nil && coded(err) ==> len(res.Details) == len(asErr(err).details) && (forall i int :: {seq(res.Details)[i]} 0 <= i && i < len(asErr(err).details) ==> seq(res.Details)[i] == (if typeis(asErr(err).details[i], "*anypb.Any") then asErr(err).details[i] else anyOf(asErr(err).details[i])))   // label: all-details-carried-in-order
 //@   ensures !coded(err) ==> e == nil
 
@@ -1918,10 +1919,11 @@ package connect
 // parses to that code (Code.UnmarshalText's round-trip clause), the message is
 // wrapped in a new error with exactly that text, details keep their order.
 //@ func (*connectWireError).MarshalJSON(e) (res, err)
-//@   tags C02, C05
+//@   tags C02, C05, C07
 //@   requires e != nil && dtypeIs(e, "*Error")
 //@   assigns nothing
-//@   assert@call((*protoJSONCodec).Marshal#1): let w := cast(arg1, "*errorv1.Error") in w.Code == codeText(cast(e, "*Error").code) && w.Message == errMessage(cast(e, "*Error")) && len(w.Details) == len(cast(e, "*Error").details)   // label: wire-error-carries-code-text-message-and-all-details
+//@   assert@call((*protoJSONCodec).Marshal#1): let w := cast(arg1, "*errorv1.Error") in w.Code == codeText(cast(e, "*Error").code) && (validUTF8(errMessage(cast(e, "*Error"))) ==> w.Message == errMessage(cast(e, "*Error"))) && len(w.Details) == len(cast(e, "*Error").details)   // label: wire-error-carries-code-text-message-and-all-details
+//@   assert@call((*protoJSONCodec).Marshal#1): validUTF8(cast(arg1, "*errorv1.Error").Message)   // label: the-message-on-the-wire-is-valid-utf-8-whatever-the-error-text-quotes   // tags: C07, C05
 //@   ensures err == nil ==> seq(res) == seq(callres("(*protoJSONCodec).Marshal", 1, 0))
 
 //@ func (*connectWireError).UnmarshalJSON(e, data) err
